@@ -248,7 +248,7 @@ def nx_obligations(unit_name, desc, tier, cres, prop=None):
             continue
         lines = [l for l in msg.split('\n') if l.strip() and not l.lstrip().startswith(('stack backtrace', 'at ', 'note:')) and not re.match(r'\s*\d+:', l)]
         cases = [l for l in lines if l.startswith('case=')]
-        failed.setdefault('%s/%s/%s' % (unit_name, short, ob), []).append(' | '.join(lines[:8])[:1500] if not cases else '\n'.join(lines)[:60000])
+        failed.setdefault('%s/%s/%s' % (unit_name, short, ob), []).append(' | '.join(lines[:8])[:1500] if not cases else '\n'.join(lines)[:400000])
     return obs, failed, undecided
 
 
